@@ -91,37 +91,6 @@ def gen_opts(rng, model):
     return opts, tuple(names)
 
 
-def gen_skip_stress(rng, model):
-    """Trees of frequent plain Term leaves: long multi-block posting lists on every side, so that the
-    block-skipping paths of the binary matchers (skip_to_quality of And/Or/AndMaybe/Require) are driven hard."""
-    from whoosh import query
-
-    def term():
-        f = rng.choice(["t", "t", "t", "u"])
-        t = query.Term(f, rng.choice(model.VOCAB[:5]))
-        if rng.random() < 0.3:
-            t = t.with_boost(rng.choice([0.5, 2.0, 3.0]))
-        return t
-
-    def node(depth):
-        if depth == 0 or rng.random() < 0.35:
-            return term()
-        r = rng.random()
-        if r < 0.4:
-            return query.And([node(depth - 1) for _ in range(rng.randint(2, 3))])
-        if r < 0.65:
-            return query.Or([node(depth - 1) for _ in range(2)])
-        if r < 0.8:
-            return query.AndMaybe(node(depth - 1), node(depth - 1))
-        if r < 0.9:
-            return query.Require(node(depth - 1), node(depth - 1))
-        return query.AndNot(node(depth - 1), term())
-    q = node(rng.choice([1, 2, 2]))
-    if isinstance(q, query.Term):
-        q = query.And([q, term()])
-    return q
-
-
 def run(ctx):
     from vf import model
     from vf.props.c12 import gen_weighting
@@ -144,7 +113,7 @@ def run(ctx):
             with built.ix.searcher(weighting=wobj) as s:
                 for _ in range(14):
                     if rng.random() < 0.4:
-                        q = gen_skip_stress(rng, model)
+                        q = model.gen_skip_stress(rng)
                         ctx.count("c05.skip_stress_queries")
                     else:
                         q = model.gen_query(rng, depth=rng.choice([1, 2, 2, 3]), scoring=True)
